@@ -320,7 +320,8 @@ def _judge_cubic(x_train, grid, cfg, tol=1e-9):
             if len(ins) and np.linalg.matrix_rank(B) == nf:
                 Zl, *_ = np.linalg.lstsq(B, M[ins], rcond=None)
                 if not bool((np.abs(B @ Zl - M[ins]) <= tol * (1 + np.abs(M[ins]).max())).all()):
-                    out.append((f"C12.{name}.centering", "fit:not-in-cardinal-span",
+                    out.append((f"C12.{name}.centering", "fit:not-in-cardinal-span"
+                                + (f":{mode}-mode-with-training-values-outside-bounds" if mode in ("zero", "na") and outside(x) else ""),
                                 "centred columns are not linear combinations of the cardinal basis on the recorded knots"))
                 else:
                     Z[0] = Zl
